@@ -1229,10 +1229,18 @@ func (g *G) genSwitch() E {
 	g.loops = append(g.loops, loopCtx{label: lbl, usedLbl: used, isSwitch: true})
 	n := g.r.Range(1, 4)
 	defPos := -1
+	earlyDef := false
 	if g.r.Chance(2, 3) {
-		defPos = g.r.Intn(n + 1)
-		if defPos != n {
-			g.f("stmt:switch-early-default")
+		defPos = n
+		// an early default is reordered by the compiler (codegen.go:980-986): the known finding
+		// `switch-early-default` covers fallthrough and overlapping cases; the generator keeps to
+		// distinct constant cases without fallthrough there.
+		if !tagless && g.r.Chance(1, 3) {
+			defPos = g.r.Intn(n + 1)
+			if defPos != n {
+				earlyDef = true
+				g.f("stmt:switch-early-default")
+			}
 		}
 	}
 	usedConst := map[string]bool{}
@@ -1258,7 +1266,7 @@ func (g *G) genSwitch() E {
 				}
 				var ps, cs []string
 				for j := 0; j < m; j++ {
-					if g.r.Chance(1, 5) {
+					if !earlyDef && g.r.Chance(1, 5) {
 						if v := g.pickVar(KInt, false); v != nil {
 							g.f("stmt:switch-nonconst-case")
 							ps, cs = append(ps, g.use(v).p), append(cs, v.Name)
@@ -1279,7 +1287,7 @@ func (g *G) genSwitch() E {
 			}
 		}
 		body.add(g.genBlock(g.r.Range(0, 2)))
-		if i != clauses-1 && g.r.Chance(1, 6) {
+		if i != clauses-1 && !earlyDef && g.r.Chance(1, 6) {
 			g.f("stmt:fallthrough")
 			body.both("fallthrough\n")
 		}
@@ -1500,10 +1508,16 @@ func (g *G) genReturn() E {
 		return s.E()
 	}
 	var ps, cs []string
+	old := g.noCalls
+	if g.hasDefer {
+		// docs/compiler.md: a panic inside the `return` statement of a function with defer is not supported
+		g.noCalls = true
+	}
 	for _, t := range g.cur.Rets {
 		e := g.genExpr(t, 3)
 		ps, cs = append(ps, e.p), append(cs, e.c)
 	}
+	g.noCalls = old
 	s.pc("return "+strings.Join(ps, ", ")+"\n", "return "+strings.Join(cs, ", ")+"\n")
 	return s.E()
 }
